@@ -68,7 +68,24 @@ async def random_tables(seed: int, sessions: list[int]) -> list[list[Any]]:
 
 def _norm_cfg_flags(cfg: dict[str, Any]) -> dict[str, Any]:
     d = bool(cfg.get("defaults", False))
-    return {"ping": d, "tester_present": d, "properties": d}
+    kw: dict[str, Any] = {"ping": d, "tester_present": d, "properties": d}
+    # the scan run the way a user runs it: cyclic TesterPresent (UDSScanner's default) with a chosen
+    # --tester-present-interval / --timeout, optionally the initial ping and the property reads
+    if cfg.get("tp_interval") is not None:
+        kw["tester_present"] = True
+        kw["tester_present_interval"] = float(cfg["tp_interval"])
+    if cfg.get("timeout") is not None:
+        kw["timeout"] = float(cfg["timeout"])
+    for k in ("ping", "properties"):
+        if cfg.get(k) is not None:
+            kw[k] = bool(cfg[k])
+    return kw
+
+
+def _tp(cfg: dict[str, Any]) -> bool:
+    """3E 00 on the wire may be the keep-alive / initial ping instead of a probe"""
+    f = _norm_cfg_flags(cfg)
+    return bool(f["tester_present"] or f["ping"])
 
 
 def _event(truth: int, req: bytes, resp: bytes | None) -> list[int]:
@@ -125,7 +142,7 @@ def run_svc(case: dict[str, Any], mutant: str | None = None) -> dict[str, Any]:
         "kind": "svc",
         "C": {"has": has, "req": den["sessions"] or [], "skipAll": den["skip_all"],
               "skip": [[s, sid] for s, sid in den["skip"]], "respIds": bool(cfg["resp_ids"]),
-              "tp": bool(cfg.get("defaults", False)), "start": 1, "check": bool(cfg["check"]),
+              "tp": _tp(cfg), "start": 1, "check": bool(cfg["check"]),
               "reset": int(cfg.get("reset") or 0)},
         "pl": PROBE_LENS,
         "tab": out["tab"],
